@@ -121,7 +121,7 @@ def build(shape, spans, lay=None):
                 nodes.append(CaptionNode.create_break())
     cs = CaptionSet({"en-US": CaptionList([Caption(1000000, 2000000, nodes)])})
     cs.add_style("myclass", {"color": "red"})
-    cs.add_style("EmphasisStyle", {"italics": True, "bold": True})
+    cs.set_styles(dict(list(cs.get_styles()) + [("EmphasisStyle", {"italics": True, "bold": True})]))  # one style arrives through add_style, one through set_styles
     return cs
 
 
@@ -154,7 +154,7 @@ def _build_lay(shape, spans, lay):
                 nodes.append(CaptionNode.create_break(layout_info=lay_at(pos)))
     cs = CaptionSet({"en-US": CaptionList([Caption(1000000, 2000000, nodes)])})
     cs.add_style("myclass", {"color": "red"})
-    cs.add_style("EmphasisStyle", {"italics": True, "bold": True})
+    cs.set_styles(dict(list(cs.get_styles()) + [("EmphasisStyle", {"italics": True, "bold": True})]))  # one style arrives through add_style, one through set_styles
     return cs
 
 
